@@ -111,6 +111,8 @@ def _resolve(call, func_qual, module, prog):
             return None
         h = None
         try:
+            if prog is None:
+                raise LookupError
             ct = prog.classtable()
             ci = ct.get(cls)
             r = ct.resolve_method(ci, name) if ci is not None else None
@@ -279,3 +281,95 @@ def inline_helpers(func, qual, module, prog, known=(), depth=2):
     new._parent = getattr(func, '_parent', None)
     new._inlined_helpers = inlined
     return new, inlined
+
+
+def make_effective(module):
+    """The module with every *new* private helper (one not listed in sa/known_private.py) inlined
+    into its callers; a new helper all of whose call sites could be inlined is removed (its
+    statements are judged where they run). The tree is rewritten, so the function table, the
+    class bodies and the class table all see the same effective program. On the tree the rules
+    were written against this is the identity. Returns (module or new tree, inlined helper names)."""
+    from .known_private import KNOWN_PRIVATE
+    from .normal import inline_temps
+    known = set(KNOWN_PRIVATE.get(module.relpath, ()))
+    priv = {f.name for f in module.functions.values()
+            if f.name.startswith('_') and not f.name.startswith('__')}
+    new = priv - known
+    if not new:
+        return None, []
+    changed = {}
+    for q, f in list(module.functions.items()):
+        if q.count('.') > 1 or '#' in q:
+            continue
+        g, inl = inline_helpers(f, q, module, None, known=priv - new)
+        if inl:
+            g = inline_temps(g, names_only=True)
+            g._inlined_helpers = inl
+            changed[q] = (f, g)
+    if not changed:
+        return None, []
+    # which new helpers are still called after inlining?
+    still = set()
+    for q, f in module.functions.items():
+        body = changed[q][1] if q in changed else f
+        for c in ast.walk(body):
+            if isinstance(c, ast.Call):
+                nm = c.func.attr if isinstance(c.func, ast.Attribute) else (
+                    c.func.id if isinstance(c.func, ast.Name) else None)
+                if nm in new and f.name != nm:
+                    still.add(nm)
+    for q, (f, g) in changed.items():
+        par = getattr(f, '_parent', None)
+        blk = getattr(par, 'body', None)
+        if isinstance(blk, list):
+            for i, s_ in enumerate(blk):
+                if s_ is f:
+                    blk[i] = g
+    removed = []
+    for q, f in list(module.functions.items()):
+        if f.name in new and f.name not in still and q.count('.') <= 1:
+            par = getattr(f, '_parent', None)
+            blk = getattr(par, 'body', None)
+            if isinstance(blk, list) and any(s_ is f for s_ in blk):
+                blk[:] = [s_ for s_ in blk if s_ is not f] or [ast.Pass()]
+                removed.append(f.name)
+    return module.tree, sorted(set(removed) | {h for _, (_, g) in changed.items()
+                                               for h in g._inlined_helpers})
+
+
+def effective_functions(prog, module):
+    """qualname -> FunctionDef to analyse: the module's functions with every *new* private helper
+    (one not in sa/known_private.py) inlined into its callers; a new helper all of whose call
+    sites could be inlined is not analysed as a unit of its own (its statements are judged where
+    they run). On the tree the rules were written against this is the identity."""
+    from .known_private import KNOWN_PRIVATE
+    from .normal import inline_temps
+    cache = getattr(module, '_effective', None)
+    if cache is not None:
+        return cache
+    known = set(KNOWN_PRIVATE.get(module.relpath, ()))
+    priv = {f.name for f in module.functions.values()
+            if f.name.startswith('_') and not f.name.startswith('__')}
+    new = priv - known
+    if not new:
+        module._effective = module.functions
+        return module.functions
+    out = {}
+    for q, f in module.functions.items():
+        g, inl = inline_helpers(f, q, module, prog, known=priv - new)
+        out[q] = inline_temps(g, names_only=True) if inl else f
+        if inl:
+            out[q]._inlined_helpers = inl
+    # new helpers still called somewhere (call not inlinable) stay units of their own
+    still = set()
+    for q, f in out.items():
+        for c in ast.walk(f):
+            if isinstance(c, ast.Call):
+                nm = c.func.attr if isinstance(c.func, ast.Attribute) else (
+                    c.func.id if isinstance(c.func, ast.Name) else None)
+                if nm in new and f.name != nm:
+                    still.add(nm)
+    res = {q: f for q, f in out.items() if f.name not in new or f.name in still}
+    module._effective = res
+    module._new_helpers = sorted(new)
+    return res
